@@ -780,6 +780,10 @@ fn payload() -> BoxedStrategy<Vec<u8>> {
         2 => "[ -~]{0,40}".prop_map(String::into_bytes),
         1 => "(__d\\(function\\(\\)\\{\\}\\);|é|\u{1f600}|\n){0,5}".prop_map(|s| { let mut b = s.into_bytes(); b.truncate(40); b }),
         1 => vec(prop_oneof![Just(0u8), Just(0xffu8), Just(0x80u8), Just(0xc3u8), any::<u8>()], 1..=40),
+        // bytes that mean something to text tooling at the start of a module: byte order marks, a
+        // shebang, a NUL - module data is opaque bytes
+        2 => (proptest::sample::select(vec![vec![0xEFu8, 0xBB, 0xBF], vec![0xFF, 0xFE], vec![0xFE, 0xFF], vec![0x23, 0x21], vec![0], vec![0xEF, 0xBB]]), vec(any::<u8>(), 0..=20))
+            .prop_map(|(mut pre, rest)| { pre.extend(rest); pre }),
     ]
     .boxed()
 }
